@@ -293,6 +293,20 @@ def loaded_ids(path):
         ids = [k for k in h5["analysis"] if "fit" in h5["analysis"][k]]
     if len(ids) != len(rs):
         return None, f"loader returned {len(rs)} ratings for {len(ids)} groups"
+    # the same ratings through the meta-only path (RateManager.get_rates,
+    # training-set export)
+    with warnings.catch_warnings():
+        warnings.simplefilter("ignore")
+        try:
+            meta = io.load_hdf5(path, meta_only=True)
+            rates = io.RateManager(path).get_rates("user")
+        except BaseException as e:
+            return None, "meta-only loader: " + rs_err(e)
+    full = [r["rating"] for r in rs]
+    if [m["rating"] for m in meta] != full or list(rates) != full:
+        return None, (f"meta-only loader returned the ratings "
+                      f"{[m['rating'] for m in meta]} / {list(rates)}, the "
+                      f"full loader {full}")
     return ids, None
 
 
